@@ -11,7 +11,7 @@ prop=${id%%-*}
 wt=/tmp/seedproc-$id-$$
 export GOFLAGS=-mod=mod GOPROXY=off GOSUMDB=off GOTOOLCHAIN=local
 git -C /repo worktree add -q --detach "$wt" HEAD || exit 2
-trap 'git -C /repo worktree remove --force "$wt" >/dev/null 2>&1; rm -f /tmp/sp-$$-*' EXIT
+trap 'git -C /repo worktree remove --force "$wt" >/dev/null 2>&1; rm -rf /tmp/sp-$$-* /tmp/seedrun-evidence-$$' EXIT
 "$V/seeded/$id/demo.sh" "$wt" >/tmp/sp-$$-d0.log 2>&1; r0=$?
 if ! git -C "$wt" apply "$V/seeded/$id/patch.diff"; then echo "$id: PATCH DOES NOT APPLY"; exit 2; fi
 (cd "$wt" && go build ./... && go test -vet=off -count=1 -v ./... >/tmp/sp-$$-suite.log 2>&1); rs=$?
@@ -25,11 +25,11 @@ results=""
 for c in $prop $extra; do
   for tier in quick thorough; do
     s=$(date +%s)
-    out=$(cd "$V" && VERIF_REPO="$wt" VERIF_EVIDENCE_DIR=/tmp/seedrun-evidence ./run $c $tier 2>&1); rc=$?
+    out=$(cd "$V" && VERIF_REPO="$wt" VERIF_EVIDENCE_DIR=/tmp/seedrun-evidence-$$ ./run $c $tier 2>&1); rc=$?
     e=$(( $(date +%s) - s ))
     subs=$(echo "$out" | grep -oE 'check=[A-Za-z0-9_.-]+' | sort -u | head -6 | tr '\n' ' ')
     echo "  check $c $tier: rc=$rc ${e}s $subs"
-    echo "$out" | grep -E "check=" | cut -c1-220 | head -3
+    echo "$out" | grep -E "check=|^INCONCLUSIVE" | cut -c1-220 | head -3
     results="$results$c|$tier|$rc|$e|$subs;"
     [ $rc -eq 1 ] && break
     [ "${SEED_THOROUGH:-1}" = 0 ] && break
